@@ -27,15 +27,15 @@ const (
 type World struct {
 	tables     map[*ssa.Global][]tableEntry
 	tablesDone map[*ssa.Global]bool
-	Repo   string
-	Fset   *token.FileSet
-	Pkgs   map[string]*packages.Package // short name -> package ("xmpp", "stanza")
-	SPkgs  map[string]*ssa.Package
-	Prog   *ssa.Program
-	Funcs  []*ssa.Function          // every module function, method and closure
-	ByKey  map[string]*ssa.Function // symbolic key -> function
-	Files  []string
-	nfuncs int
+	Repo       string
+	Fset       *token.FileSet
+	Pkgs       map[string]*packages.Package // short name -> package ("xmpp", "stanza")
+	SPkgs      map[string]*ssa.Package
+	Prog       *ssa.Program
+	Funcs      []*ssa.Function          // every module function, method and closure
+	ByKey      map[string]*ssa.Function // symbolic key -> function
+	Files      []string
+	nfuncs     int
 	// functions whose file imports "testing" (test support shipped as non-test file)
 	TestSupport map[*ssa.Function]bool
 	// Normalised: what normalize.go rewrote (in the overlay) before loading
